@@ -980,7 +980,7 @@ class Engine:
 
     def call_function(self, module, cls, node, args, kwargs, line, qual):
         """modular call: contract if there is one, else inline if allowed"""
-        c = self.spec.contract_for(qual)
+        c = self.spec.contract_for(qual, args, self.repo)
         if c is not None and not (self.cur_target == qual and self.depth == 0):
             return self.call_contract(c, module, cls, node, args, kwargs, line)
         if self.spec.may_inline(qual) or cls is None and self.spec.inline_all_pure(qual):
